@@ -7,7 +7,8 @@ element in document order; multi-line text one level deeper with the syntax's li
 recovered from the indentation equals the tree of the HTML output for the same abbreviation.
 """
 import itertools
-from emmet import expand
+from emmet import expand, markup_abbreviation, stringify_markup
+from emmet.config import Config
 from mc.lexers import lex_html
 from mc.ref import abbr_model as M
 
@@ -29,6 +30,7 @@ KINDS = {
     'div': dict(name='div'),
     'div.k': dict(name='div', cls=['k']),
     'div[a=b]': dict(name='div', attrs=[('a', 'b')]),
+    'x.k1.k2.k3.k4.k5.k6.k7.k8.k9.k10.k11': dict(name='x', cls=['k%d' % i for i in range(1, 12)]),
 }
 SMALL = ['x', '.c', 'x#i.c[a=b d]', 'x{l1\nl2}', 'br/', 'div[a=b]']
 SYNTAXES = ['haml', 'pug', 'slim']
@@ -159,6 +161,16 @@ def check(seq, labels, syntax, indent):
     exp = expected_lines(tree, syntax, indent)
     if got != exp:
         bad.append((classify(exp, got, indent), dict(abbr=abbr, syntax=syntax, indent=indent, expected=exp[:12], got=got[:12])))
+    # formatting must not consume the parsed tree: the same tree formatted twice (and as HTML afterwards) gives the same text
+    try:
+        cfg = Config({'syntax': syntax, 'options': {'output.indent': indent, 'inlineElements': []}})
+        t = markup_abbreviation(abbr, cfg)
+        first = stringify_markup(t, cfg)
+        second = stringify_markup(t, cfg)
+        if not (first == second == out):
+            bad.append(('formatter-consumes-the-tree', dict(abbr=abbr, syntax=syntax, first=first[:200], second=second[:200])))
+    except Exception as e:
+        bad.append(('exception-reformat:%s' % type(e).__name__, str(e)[:120]))
     try:
         ht = html_tree_void(abbr)
     except Exception as e:
